@@ -472,6 +472,15 @@ def perturb_case(case, res):
             st = z[3:].start_time
             wrong = type(z).like(z[3:], start_time=_Time(st.jd1, st.jd2, format="jd", scale=scale))
             expect_reject([z[:3], wrong], f"same clock reading on the {scale} scale (another instant)")
+        # an axis number outside the signal's dimensions (the SAME piece twice would otherwise be "joined")
+        for ax_ in (-z.ndim - 1, -z.ndim - 2, z.ndim, z.ndim + 3):
+            res.transitions += 1
+            try:
+                o_ = pb.concatenate([z, z], axis=ax_)
+                res.violation("perturb|axis out of range accepted", f"concatenate([z, z], axis={ax_}) on a {z.ndim}-d signal returned shape "
+                              f"{o_.shape}", case, {"axis": ax_})
+            except Exception:
+                res.hits["perturbed piece rejected"] += 1
         expect_reject([], "empty list")
         expect_reject([np.zeros(3), np.zeros(3)], "non-Signal")
     # far from the first piece a one-sample error must still be refused (no tolerance that grows with elapsed time)
@@ -500,6 +509,19 @@ def perturb_case(case, res):
                 except Exception:
                     res.hits["perturbed piece rejected"] += 1
             ok = pb.concatenate([big[:100003], big[100003:250001], big[250001:]])
+        # a piece with very many channels whose width differs by 9e-6: its far edge is off by several whole channels
+        xa = pb.RadioSignal(np.zeros((1, 4), np.float32), sample_rate=1 * u.Hz, center_freq=2 * u.Hz, chan_bw=1 * u.Hz)
+        nb = 400000
+        cb = 1.000009 * u.Hz
+        yb = pb.RadioSignal(np.zeros((1, nb), np.float32), sample_rate=1 * u.Hz, chan_bw=cb,
+                            center_freq=xa.channel_freqs[-1] + 1 * u.Hz + cb * (nb - 1) / 2)
+        res.transitions += 1
+        try:
+            o_ = pb.concatenate([xa, yb], axis="freq")
+            res.violation("perturb|channel widths differing by 9e-6 joined along frequency", f"4 channels of 1 Hz + {nb} channels of "
+                          f"{cb} joined into {o_.nchan} channels labelled with chan_bw {o_.chan_bw}", case, None)
+        except Exception:
+            res.hits["perturbed piece rejected"] += 1
         # long spans at generic rates (offsets of 1e5 .. 1e6 s): every grouping of contiguous pieces must still re-join
         for rq, N_ in ((1 / 10.7 * u.Hz, 100000), (1e-5 * u.Hz, 40), (3 * u.Hz, 600000), (0.37 * u.Hz, 300000)):
             xs = pb.Signal(np.zeros(N_, np.int8), sample_rate=rq, start_time=factory.start("iso"))
